@@ -8,17 +8,19 @@ ASSUMPTIONS = [
     "P by-product: the structure of every materialised graph of the program families (every optimiser stage, fused sub-graphs recursively, partition-filtered sources, "
     "from_graph / from_delayed imports) - structural, no data involved; the same graphs are executed by the symbolic interpreter in the other checks, which raises on an "
     "undefined key or a cycle",
+    "F09 sibling programs: two or more instances of one operator over the same input that differ in one parameter, evaluated in one graph (key ambiguity between "
+    "expressions, which a single instance can never show)",
     "outside: DiskShuffle / P2P layers (uuid keys, distributed), pickling itself",
 ]
 
 
 def run(tier, only=None):
-    from families import f01, f14
+    from families import f01, f09, f14
     from .. import pselect
     from ..prun import Program, Src
 
     krs, kinfo = kcollect.run("C09", tier, only, modules=["k_layers", "k_repart", "k_divisions"])
-    progs = f01.select(f01.all_programs(tier), "quick", seed() + 3, 150 if tier == "quick" else 2000) + f14.programs(tier)
+    progs = f01.select(f01.all_programs(tier), "quick", seed() + 3, 150 if tier == "quick" else 2000) + f14.programs(tier) + f09.programs(tier)
     # graphs imported via from_map / from_delayed / from_graph and partition-filtered sources
     import dask_expr as dx
     for sname, src in pselect.sources(tier):
